@@ -34,7 +34,7 @@ from ..snapshot import snapshot
 import htmltools
 from htmltools import HTML, HTMLDependency, HTMLDocument, MetadataNode, Tag, TagList
 from htmltools import _jsx
-from htmltools._jsx import JSXTag, jsx
+from htmltools._jsx import JSXTag, jsx, jsx_tag_create
 
 NOTIMPL = 8   # NotImplementedError (a RuntimeError subclass: tested first)
 
@@ -179,7 +179,12 @@ def build_node(n, reg):
         _, name, allowed, kwargs, kids, how = n
         objs = [build_node(x, reg) for x in kids]
         kw = {kk: build_val(x, reg) for kk, x in kwargs}
-        mk = lambda *a: JSXTag(name, *a, allowedProps=allowed, **kw)  # noqa: E731
+        if (how + len(kwargs)) % 2 == 0:
+            # through the public factory (names come from a small pool and repeat within a run, with different
+            # allow-lists: the factory must not remember anything per name)
+            mk = lambda *a: jsx_tag_create(name, allowed)(*a, **kw)  # noqa: E731
+        else:
+            mk = lambda *a: JSXTag(name, *a, allowedProps=allowed, **kw)  # noqa: E731
         if how == 1:
             return mk(None, [objs[:1], None, [objs[1:]]])
         if how == 2:
@@ -1166,6 +1171,70 @@ def run_batch(ctx: Ctx, cases: list, label: str, rng) -> None:
 
 
 # ---- small function-level correspondences ----------------------------------------------------
+# ---- histories of jsx_tag_create ---------------------------------------------------------------
+W_HIST = ("jsx_tag_create(name, allowedProps): a construction was not decided by the allow-list declared in that very "
+          "call (rejected iff the list is non-empty and some raw keyword is outside it), or rendered differently from "
+          "a direct JSXTag(name, allowedProps=...)")
+HIST_NAMES = ["Card", "Foo", "ui.Card"]
+HIST_ALLOW = [None, None, [], ["title"], ["title", "class_"], ["class"], ["data_x", "title", "x_"], ["data-x"],
+              ["x"], ["class_", "data_x", "x_", "x", "title", "id"]]
+HIST_KEYS = ["title", "class_", "class", "data_x", "data-x", "x_", "x", "id"]
+
+
+def gen_history(rng):
+    steps = []
+    for _ in range(rng.choice([2, 2, 3, 4, 5])):
+        name = rng.choice(HIST_NAMES)
+        allowed = rng.choice(HIST_ALLOW)
+        cons = []
+        for _ in range(rng.choice([1, 2, 3])):
+            pool = HIST_KEYS if not allowed or rng.random() < 0.5 else allowed + rng.sample(HIST_KEYS, 1)
+            ks = rng.sample(pool, rng.choice([0, 1, 1, 2, 3]) if len(pool) >= 3 else rng.choice([0, 1]))
+            cons.append([[k, rng.choice([["str", "v"], ["int", "1"], ["bool", True], ["none"], ["jsx", "cb"]])]
+                         for k in dict.fromkeys(ks)])
+        steps.append([name, allowed, cons])
+    return steps
+
+
+def run_histories(ctx: Ctx, rng, extra=()) -> None:
+    hists = [h for h in extra] + [gen_history(rng) for _ in range(ctx.budget(500, 8000))]
+    flat = [(hi, si, ci) for hi, h in enumerate(hists) for si, st in enumerate(h) for ci in range(len(st[2]))]
+    model = run_model([[1, node_sx(["C", hists[hi][si][0], hists[hi][si][1], hists[hi][si][2][ci], [], 0])]
+                       for hi, si, ci in flat], driver="c20")
+    mres = dict(zip(flat, model))
+    bad = []
+    for hi, h in enumerate(hists):
+        ctx.count(["history", h], len({st[0] for st in h}) < len(h), "jsx_tag_create history")
+        for si, (name, allowed, cons) in enumerate(h):
+            ctor = jsx_tag_create(name, allowed)
+            for ci, kwargs in enumerate(cons):
+                stat("histories: constructions")
+                kw = {k: build_val(v, {}) for k, v in kwargs}
+                r = safe(lambda: ctor(**kw))
+                got = ["notimpl"] if r == ["err", NOTIMPL] else (
+                    ["ok", list(r[1].attrs.keys()), str(r[1])] if r[0] == "ok" else r)
+                # the statement: decided by THIS call's allow-list, on the raw names
+                reject = bool(allowed) and any(k not in allowed for k, _ in kwargs)
+                if reject:
+                    exp = ["notimpl"]
+                    stat("histories: constructions that must be rejected")
+                else:
+                    d = JSXTag(name, allowedProps=allowed, **kw)
+                    exp = ["ok", list(d.attrs.keys()), str(d)]
+                if got != exp:
+                    ctx.violation(W_HIST, {"history": h, "step": si, "construction": ci},
+                                  {"impl_output": got, "expected": exp})
+                m = dec_model(mres[(hi, si, ci)])
+                mo = m["obs"] if isinstance(m, dict) else m
+                mgot = ["notimpl"] if mo == ["notimpl"] else ["ok", mo[1], mo[3][1]] if mo[0] == "ok" and mo[3][0] == "ok" else mo
+                if mgot != got:
+                    bad.append({"case": {"history": h, "step": si, "construction": ci}, "impl_output": got, "model_output": mgot})
+    ctx.corr_cases += len(flat)
+    ctx.obligation(f"correspondence jsx_tag_create histories ({len(hists)} histories, {len(flat)} constructions)", not bad)
+    if bad:
+        ctx.extra["disagree_histories"] = bad[:3]
+
+
 def js_string_ref(lit: str):
     """independent reader of one double-quoted JavaScript string literal (single-character escapes)"""
     if len(lit) < 2 or lit[0] != '"':
@@ -1303,11 +1372,17 @@ def check_tables(ctx: Ctx) -> None:
     ctx.obligation("translator tables lib_versions / jsx_lib_deps agree with the live package", ok)
 
 
+CORPUS_HISTORIES: list = []
+
+
 def load_corpus():
     out = []
+    CORPUS_HISTORIES.clear()
     for p in sorted(glob.glob(os.path.join(VERIF, "corpus", "C20", "*.json"))):
         with open(p, encoding="utf-8") as f:
-            out.extend(json.load(f)["cases"])
+            d = json.load(f)
+        out.extend(d.get("cases", []))
+        CORPUS_HISTORIES.extend(d.get("histories", []))
     return out
 
 
@@ -1324,7 +1399,11 @@ RULE = ("component trees (depth <= 4) generated from one seeded PRNG: JSX compon
         "HTMLDocument, TagList) with object-graph snapshots before/after; metadata list vs an independent pre-order "
         "walk of the description; generated expression vs the extracted print_js(to_js(expand c)) and vs an "
         "independent JavaScript reader.  Non-trivial = the tree has a metadata node or tagifiable object, or is "
-        "larger than one small component; distinct = canonical description.")
+        "larger than one small component; distinct = canonical description.  Component names come from small pools and "
+        "repeat within a run; half the components are built through jsx_tag_create.  Histories: 2-5 "
+        "jsx_tag_create(name, allowedProps) calls over three names with varying allow-lists (None, empty, one, several, "
+        "names needing normalisation), each followed by 1-3 constructions; every construction is decided from the "
+        "allow-list of its own call and compared with a direct JSXTag(...) and with the model.")
 
 
 def run(ctx: Ctx) -> None:
@@ -1356,6 +1435,7 @@ def run(ctx: Ctx) -> None:
     run_strings(ctx, rng)
     run_css(ctx, rng)
     run_render(ctx, rng)
+    run_histories(ctx, rng, extra=[h for h in CORPUS_HISTORIES])
     ctx.extra["oracle_counts"] = dict(sorted(STATS.items()))
 
 
@@ -1368,5 +1448,8 @@ def replay(ctx: Ctx, path: str) -> None:
     case = r.get("case")
     if isinstance(case, dict) and "tree" in case:
         run_batch(ctx, [case], "replay", ctx.rng)
+    elif isinstance(case, dict) and "history" in case:
+        ctx.budget = lambda q, t: 0          # only the recorded history
+        run_histories(ctx, ctx.rng, extra=[case["history"]])
     else:
         run(ctx)
